@@ -2,7 +2,7 @@
 from common_props import COMMON_TRUSTED
 
 CFG = {
-    "engines": [["frag", 250, 4000], ["msgwire", 25, 300]],
+    "engines": [["frag", 250, 4000], ["msgwire", 25, 300], ["poolget", 64, 1600], ["poolwire", 64, 960]],
     "rule": "frag/fragw: writer scripts in the API grammar (Begin (Write|Flush)* Close)^3 with argument lengths around fragment "
             "boundaries (0..3, cap-3..cap+3, k*cap-3..k*cap+3, many-frame), capacities 5..40/64/300/4096 (initial and continuation "
             "independently), write splits (whole, byte-wise, random, boundary-1..+1), flushes incl. double and data-less ones, all "
@@ -10,14 +10,27 @@ CFG = {
             "the real fragmentingReader with read patterns helper(ArgReadHelper.Read), exact-length+Close, byte-wise to EOF, random "
             "sizes to EOF, exact then EOF probe; fragparse: valid and hostile fragment payloads through parseInboundFragment + chunk "
             "loop. msgwire: a real client channel against a raw TCP peer built from the protocol document (production frame capacity, multi-frame requests and responses in both directions: the peer reassembles the arguments per the specification and verifies every checksum independently). Non-trivial = more than one "
-            "fragment; distinct by input.",
+            "fragment; distinct by input. poolget: every exported FramePool (unset/DefaultFramePool, NewSyncFramePool, DisabledFramePool, "
+            "NewChannelFramePool(0/1/64), NewCheckedFramePoolForTest) under random Get/Release scripts (fresh and recycled frames): "
+            "len(Payload) == cap(Payload) == MaxFramePayloadSize, fresh header zero, and the frame filled to the brim as newFragment/flushFragment "
+            "do is written as 16+len(Payload) <= 65535 bytes with that size field and read back. poolwire: a real channel with each of "
+            "these pools on the WRITING side writes a call req (client) or call res (server) whose arguments end -3..+3 bytes around the "
+            "end of the first or a continuation frame (1..6 frames; whole, in pieces, with flushes) to a raw peer: every Write on the "
+            "connection is one frame of 16..65535 bytes whose size field equals the bytes written, every frame parses, every checksum "
+            "verifies, the reassembled arguments are the ones written; sub callwire: the frames vs the reqResWriter model.",
     "trusted_base": COMMON_TRUSTED + [
         "modelled by hand (tied by correspondence): fragmentingWriter (BeginArgument/Write/writeAsFits/Flush/Close, fragment finish), "
         "fragmentingReader (BeginArgument/Read/Close cases 1-5/recvAndParseNextFragment), parseInboundFragment, ArgReadHelper.read + "
         "EnsureEmpty, checksum objects; regenerated from source: state enums, chunkHeaderSize, hasMoreFragmentsFlag, frame size "
         "constants, ChecksumSize, hasMoreFragments",
         "Spec/FragSpec.v: meaning of a fragment sequence, written from the protocol document",
+        "go2v/framesites.go (syntactic, type-resolved over every non-test file of ./...): the table of NewFrame call sites with the constant "
+        "value of the argument, the slice bounds in NewFrame, Frame literals, assignments to Frame.Payload/buffer/headerBuffer, write buffers "
+        "over a Payload, FramePool implementations with the classes of what Get returns / Release stores, receive-only classification of "
+        "frames bound to a local that is only read into; Model/FramePool.v: the world of frames built from these tables (frames reached "
+        "through reflection/unsafe or handed in by user-supplied FramePool implementations are outside)",
     ],
-    "assumptions": ["blocking of flushFragment on the send queue / context (C05) and frame pooling (C12) are outside this model",
+    "assumptions": ["blocking of flushFragment on the send queue / context (C05) and frame ownership (C12) are outside this model; "
+                    "a FramePool implementation supplied by the application must hand out frames made by NewFrame(MaxFramePayloadSize)",
                     "Flush outside an open argument is API misuse and excluded by the script grammar"],
 }
